@@ -23,6 +23,7 @@ use vharness::{
 struct Cx<'a> {
     w: &'a mut dyn Write,
     id: usize,
+    vbits: Option<(usize, Vec<u8>)>,
 }
 
 fn pool(n: usize) -> ThreadPool {
@@ -276,9 +277,14 @@ fn render3<F: Function + RenderHints + MathFunction + Clone>(cx: &mut Cx, backen
         Ok(None) => (false, "none".into(), vec![], vec![]),
         Err(m) => (false, format!("panic: {m}"), vec![], vec![]),
     };
-    let j = json!({"ev": "image3d", "id": cx.id, "backend": backend, "w": w, "h": h, "d": d, "tiles": tiles, "threads": threads,
+    let mut j = json!({"ev": "image3d", "id": cx.id, "backend": backend, "w": w, "h": h, "d": d, "tiles": tiles, "threads": threads,
         "ok": ok, "err": err, "depth": depth, "normal": normal, "ref_depth": ref_depth, "ref_normal": ref_normal,
         "excluded": excluded, "ambiguous": ambiguous, "desc": b.desc});
+    if let Some((t0, vb)) = cx.vbits.take() {
+        // the voxel set of the model (Render3D.tla generator): Trace_C07 recomputes the heightmap from it
+        j["vbits"] = json!(vb);
+        j["vt0"] = json!(t0);
+    }
     writeln!(cx.w, "{j}").unwrap();
     cx.id += 1;
 }
@@ -353,7 +359,60 @@ fn voxel_boxes(rng: &mut Rng, size: (u32, u32, u32)) -> Built {
     Built { ctx, root: acc.unwrap(), desc: "voxel-boxes".into() }
 }
 
-fn c07(cx: &mut Cx, quick: bool, rng: &mut Rng) {
+/// a voxel set of the Render3D.tla generator realised as a union of voxel-aligned boxes (one per run of a column)
+fn voxel_set_shape(bits: &[u8], t0: usize, size: (u32, u32, u32)) -> Built {
+    let vs = VoxelSize::new(size.0, size.1, size.2);
+    let s2w = vs.screen_to_world();
+    let pos = |i: f32, j: f32, k: f32| s2w.transform_point(&nalgebra::Point3::new(i, j, k));
+    let mut ctx = Context::new();
+    let mut acc: Option<Node> = None;
+    let at = |x: usize, y: usize, z: usize| -> bool { let i = x + y * t0 + z * t0 * t0; i < bits.len() && bits[i] == 1 };
+    for y in 0..size.1 as usize {
+        for x in 0..size.0 as usize {
+            let mut z = 0usize;
+            while z < size.2 as usize {
+                if !at(x, y, z) { z += 1; continue; }
+                let z0 = z;
+                while z + 1 < size.2 as usize && at(x, y, z + 1) { z += 1; }
+                let a = pos(x as f32 - 0.5, y as f32 - 0.5, z0 as f32 - 0.5);
+                let c = pos(x as f32 + 0.5, y as f32 + 0.5, z as f32 + 0.5);
+                let b = shapes::box3(&mut ctx, [a.x.min(c.x), a.y.min(c.y), a.z.min(c.z)], [a.x.max(c.x), a.y.max(c.y), a.z.max(c.z)]);
+                acc = Some(match acc { None => b, Some(p) => ctx.min(p, b).unwrap() });
+                z += 1;
+            }
+        }
+    }
+    let root = acc.unwrap_or_else(|| ctx.constant(1.0));
+    Built { ctx, root, desc: format!("voxel-set {}x{}x{}", size.0, size.1, size.2) }
+}
+
+fn read_voxsets(path: &str) -> Vec<((u32, u32, u32), usize, Vec<u8>)> {
+    let text = std::fs::read_to_string(path).unwrap_or_default();
+    let mut lines: Vec<&str> = text.lines().filter(|l| l.starts_with("<<\"GEN\", \"")).collect();
+    lines.sort();
+    lines.dedup();
+    lines.iter().filter_map(|l| {
+        let body = l.trim_start_matches("<<\"GEN\", \"").trim_end_matches("\">>").replace("\\\"", "\"");
+        let v: Value = serde_json::from_str(&body).ok()?;
+        let size = (v["w"].as_u64()? as u32, v["h"].as_u64()? as u32, v["d"].as_u64()? as u32);
+        let bits = v["bits"].as_array()?.iter().map(|b| b.as_u64().unwrap() as u8).collect();
+        Some((size, v["t0"].as_u64()? as usize, bits))
+    }).collect()
+}
+
+fn c07(cx: &mut Cx, voxsets: &str, quick: bool, rng: &mut Rng) {
+    // (a) every voxel set of the Render3D.tla generator bound, under two tile lists each (multi-level, single-level,
+    // 1-voxel leaves, root tiles larger than the grid, depths that are not multiples of the root tile)
+    for (k, (size, t0, bits)) in read_voxsets(voxsets).iter().enumerate() {
+        let b = voxel_set_shape(bits, *t0, *size);
+        for t in 0..2 {
+            let k = k + 4 * t + t;
+            let tl: &[usize] = [&[2usize, 1][..], &[2], &[4, 2], &[1], &[3], &[4, 2, 1], &[4]][k % 7];
+            cx.vbits = Some((*t0, bits.clone()));
+            if k % 2 == 0 { render3::<VmFunction>(cx, "vm", &b, *size, tl, Matrix4::identity(), 0); }
+            else { render3::<JitFunction>(cx, "jit", &b, *size, tl, Matrix4::identity(), [0, 2][k % 3 % 2]); }
+        }
+    }
     let sizes: [(u32, u32, u32); 8] = [(8, 8, 8), (13, 9, 12), (16, 16, 16), (24, 16, 40), (12, 20, 7), (32, 32, 32), (9, 9, 25), (16, 8, 24)];
     let n = if quick { 250 } else { 2500 };
     for k in 0..n {
@@ -386,11 +445,11 @@ fn main() {
     let args: Vec<String> = std::env::args().collect();
     let quick = args[3] == "quick";
     let mut file = std::io::BufWriter::new(std::fs::File::create(&args[4]).unwrap());
-    let mut cx = Cx { w: &mut file, id: 0 };
+    let mut cx = Cx { w: &mut file, id: 0, vbits: None };
     let mut rng = Rng::new(seed_from_env().wrapping_add(606));
     match args[1].as_str() {
         "c06" => c06(&mut cx, &args[2], quick, &mut rng),
-        "c07" => c07(&mut cx, quick, &mut rng),
+        "c07" => c07(&mut cx, &args[2], quick, &mut rng),
         m => panic!("mode {m}"),
     }
     let n = cx.id;
